@@ -501,6 +501,21 @@ pub fn gen(r: &mut Rng) -> (Program, World) {
     if g.r.chance(1, 4) {
         t.references.push(("refd".into(), E::UtxoRef(hx(&[0x77; 32]), g.r.below(3))));
     }
+    // an optional output (`output? gift`): carrying a token and no lovelace, lovelace only, or nothing at all (then it
+    // is left out and the outputs after it move up)
+    if g.r.chance(1, 3) {
+        let tok = if g.tokens.is_empty() { "Ada".to_string() } else { g.tokens[0].clone() };
+        let mk = |t: &str, n: i64| E::Call(t.to_string(), vec![E::Num(n)]);
+        let amount = match g.r.below(5) {
+            0 => mk(&tok, 3),
+            1 => mk("Ada", 0),
+            2 => mk("Ada", 1_500_000),
+            3 => E::Sub(Box::new(mk(&tok, 4)), Box::new(mk(&tok, 4))),
+            _ => E::Add(Box::new(mk(&tok, 2)), Box::new(mk("Ada", 0))),
+        };
+        let at = g.r.below(t.outputs.len() as u64 + 1) as usize;
+        t.outputs.insert(at, OutputBlock { name: Some("gift".into()), optional: true, to: Some(E::Id("Receiver".into())), amount: Some(amount), datum: None });
+    }
     // chain-specific directives (their lowering is part of the model: `LangAdhoc`): a donation of an integer
     // expression, script witnesses
     if g.r.chance(1, 4) {
